@@ -79,12 +79,27 @@ def history_campaign(ctx, out, judge, *, n_hist, n_steps, profiles, labels_sets,
         failed = None
         size_max = 0
         diverged_at = None
+        div_op = None
         for i in range(n_steps + TAIL_STEPS):
             if i >= n_steps and diverged_at is None:
                 break
             ti = 0 if ctx.rng.random() < 0.7 else 1
             op = H.random_op(ctx.rng, r.impl, ti, labels=labels, typed=cfg["typed"], malformed=prof.get("malformed", 0.1), ops=prof.get("ops"),
                              did_rate=prof.get("did_rate", 0.15), dids=prof.get("dids", (1001, 1002, "x", "y", 7, 0, "")))
+            if diverged_at is not None and i - diverged_at <= 4 and div_op is not None:
+                # the first steps after a divergence repeat the operation on which the two sides parted (at another place every
+                # second time): what one such call leaves behind is often harmless, what the next one finds is not
+                op = dict(div_op)
+                if (i - diverged_at) % 2 == 0 and "p" in op and "t" in op:
+                    try:
+                        allp_ = [[]] + H.paths_of(r.impl.trees[op["t"]])
+                        op["p"] = ctx.rng.choice(allp_)
+                        op["before"] = None
+                        op.pop("ref", None)
+                        if op.get("via") in ("prepend_sibling", "append_sibling"):
+                            op.pop("via")
+                    except Exception:  # noqa
+                        pass
             s = r.step(op)
             log.append(H.clean(op))
             size_max = max(size_max, s.n_nodes)
@@ -100,6 +115,7 @@ def history_campaign(ctx, out, judge, *, n_hist, n_steps, profiles, labels_sets,
                 # implementation alone (oracles that need no model), as a search for a concrete failing history
                 out.disagree(dict(cfg=pub(cfg), log=list(log)), f"step {i} {H.clean(op)}: {s.problems[:2]}", step=s.as_dict())
                 diverged_at = i
+                div_op = H.clean(op)
             if diverged_at is not None and i - diverged_at >= TAIL_STEPS:
                 break
         key = core.hash_str(json.dumps(log, sort_keys=True, default=str))
